@@ -2,6 +2,7 @@ import Uom.Model.Fold
 import Uom.Proofs.FlConvIdentity
 import Uom.Proofs.FoldCorrect
 import Uom.Gen.Layout
+import Uom.Gen.Bodies
 /-!
 # C04 — quantities are a zero-cost, transparent wrapper over the storage type (claimed partial)
 
@@ -82,5 +83,86 @@ theorem every_bit_pattern_canonical (bits : Nat) :
 theorem fold_new_affine (f : Fmt) (coef c fac v : Fl) (hge : Fl.ge coef fac = true) :
     toBase (flS f) coef c fac v = Fl.mul f (Fl.add f v c) (Fl.div f coef fac) := by
   unfold toBase; simp only [flS, id, hge, if_true]
+
+/-! ### tie to the source: the operator bodies regenerated from /repo/src on this run do no extra work
+
+`BExpr.work` counts the storage-type operations an expression performs (binary / assignment operators,
+negation, method calls other than the free `conversion()` / `value()` re-wraps of floats) and the
+conversions it calls (`change_base`, `to_base`, `from_base`).  Every not-autoconvert operator body is
+*one* storage operation and no conversion; every autoconvert body is the same one operation plus one
+`change_base` (which `fold_same_base` / `fold_change` above reduce to nothing, or to one multiplication
+by a constant); wrapping in `Quantity { … PhantomData … }` and reading `.value` are free. -/
+section SourceTie
+open Uom.Body Uom.Gen.Body
+
+/-- (storage operations, conversion calls) of an expression -/
+def work : BExpr → Nat × Nat
+  | .var _ | .lit _ | .fn0 _ | .opaque _ | .baseFactor _ _ => (0, 0)
+  | .fn1 (.changeBase _ _ _) a | .fn1 (.toBase _ _ _) a | .fn1 (.fromBase _ _ _) a | .fn1 (.selfNew _) a =>
+      ((work a).1, (work a).2 + 1)
+  | .fn1 _ a => ((work a).1 + 1, (work a).2)
+  | .fn2 _ a b => ((work a).1 + (work b).1 + 1, (work a).2 + (work b).2)
+  | .m0 r (.get _) => ((work r).1, (work r).2 + 1)
+  | .m0 r _ => ((work r).1 + 1, (work r).2)
+  | .m1 r _ a => ((work r).1 + (work a).1 + 1, (work r).2 + (work a).2)
+  | .m2 r _ a b => ((work r).1 + (work a).1 + (work b).1 + 1, (work r).2 + (work a).2 + (work b).2)
+  | .valueOf r | .ref r | .quantity r => work r
+  | .bin _ a b | .assign _ a b => ((work a).1 + (work b).1 + 1, (work a).2 + (work b).2)
+  | .neg a => ((work a).1 + 1, (work a).2)
+  | .ite c t e => ((work c).1 + (work t).1 + (work e).1, (work c).2 + (work t).2 + (work e).2)
+  | .letIn _ v b => ((work v).1 + (work b).1, (work v).2 + (work b).2)
+  | .seq a b => ((work a).1 + (work b).1, (work a).2 + (work b).2)
+
+/-- without autoconvert: exactly one storage operation, no conversion -/
+theorem src_noauto_bodies_are_one_operation :
+    [system_Add_for_Quantity_add_noauto, system_Sub_for_Quantity_sub_noauto, system_Rem_for_Quantity_rem_noauto,
+     system_Mul_Quantity_for_Quantity_mul_noauto, system_Div_Quantity_for_Quantity_div_noauto,
+     system_AddAssign_for_Quantity_add_assign_noauto, system_SubAssign_for_Quantity_sub_assign_noauto,
+     system_RemAssign_for_Quantity_rem_assign_noauto, system_PartialEq_for_Quantity_eq_noauto,
+     system_PartialOrd_for_Quantity_partial_cmp_noauto, system_PartialOrd_for_Quantity_lt_noauto,
+     system_PartialOrd_for_Quantity_le_noauto, system_PartialOrd_for_Quantity_gt_noauto, system_PartialOrd_for_Quantity_ge_noauto,
+     system_inherent_Quantity_hypot_noauto, system_inherent_Quantity_mul_add_noauto,
+     si_mod_From_Quantity_for_Quantity_from_noauto,
+     -- forms without a twin
+     system_Mul_V_for_Quantity_mul, system_Div_V_for_Quantity_div, system_MulAssign_V_for_Quantity_mul_assign,
+     system_DivAssign_V_for_Quantity_div_assign, system_Mul_Quantity_for_V_mul, system_Div_Quantity_for_V_div,
+     system_Neg_for_Quantity_neg, system_inherent_Quantity_abs, system_inherent_Quantity_signum, system_inherent_Quantity_recip,
+     system_inherent_Quantity_sqrt, system_inherent_Quantity_cbrt, system_inherent_Quantity_max, system_inherent_Quantity_min,
+     system_Ord_for_Quantity_cmp, system_Ord_for_Quantity_max, system_Ord_for_Quantity_min,
+     system_Saturating_for_Quantity_saturating_add, system_Saturating_for_Quantity_saturating_sub,
+     system_inherent_Quantity_classify, system_inherent_Quantity_is_nan, system_inherent_Quantity_is_finite,
+     system_Zero_for_Quantity_is_zero, system_Hash_for_Quantity_hash].map (fun f => work f.body)
+    = [(1, 0), (1, 0), (1, 0), (1, 0), (1, 0), (1, 0), (1, 0), (1, 0), (1, 0), (1, 0), (1, 0), (1, 0), (1, 0), (1, 0),
+       (1, 0), (1, 0), (0, 0),
+       (1, 0), (1, 0), (1, 0), (1, 0), (1, 0), (1, 0), (1, 0), (1, 0), (1, 0), (1, 0), (1, 0), (1, 0), (1, 0), (1, 0),
+       (1, 0), (1, 0), (1, 0), (1, 0), (1, 0), (1, 0), (1, 0), (1, 0), (1, 0), (1, 0)] := by
+  decide
+
+/-- with autoconvert: the same one operation plus exactly one `change_base` per converted operand -/
+theorem src_auto_bodies_add_one_conversion :
+    [system_Add_Quantity_for_Quantity_add_auto, system_Sub_Quantity_for_Quantity_sub_auto, system_Rem_Quantity_for_Quantity_rem_auto,
+     system_Mul_Quantity_for_Quantity_mul_auto, system_Div_Quantity_for_Quantity_div_auto,
+     system_AddAssign_Quantity_for_Quantity_add_assign_auto, system_SubAssign_Quantity_for_Quantity_sub_assign_auto,
+     system_RemAssign_Quantity_for_Quantity_rem_assign_auto, system_PartialEq_Quantity_for_Quantity_eq_auto,
+     system_PartialOrd_Quantity_for_Quantity_partial_cmp_auto, system_PartialOrd_Quantity_for_Quantity_lt_auto,
+     system_inherent_Quantity_hypot_auto, system_inherent_Quantity_mul_add_auto,
+     si_mod_From_Quantity_for_Quantity_from_auto].map (fun f => work f.body)
+    = [(1, 1), (1, 1), (1, 1), (1, 1), (1, 1), (1, 1), (1, 1), (1, 1), (1, 1), (1, 1), (1, 1), (1, 1), (1, 2), (0, 1)] := by
+  decide
+
+/-- `new` is one `to_base`, `get` one `from_base`; a rounding method is one `get`, one storage function, one `new` -/
+theorem src_new_get_rounding_work :
+    [quantity_inherent_quantity_new, quantity_inherent_quantity_get, quantity_inherent_quantity_floor,
+     quantity_inherent_quantity_trunc].map (fun f => work f.body) = [(0, 1), (0, 1), (1, 2), (1, 2)] := by
+  decide
+
+/-- the conversion kernel itself: `to_base` / `from_base` are an addition/subtraction, a division of two
+    constants and a multiplication or division (3 operations in either branch, counted over both
+    branches: 6, plus the comparison and the two free re-wraps) — no loop, no call -/
+theorem src_kernel_work :
+    (work system_free_to_base.body).2 = 0 ∧ (work system_free_from_base.body).2 = 0 ∧ (work system_free_change_base.body).2 = 0 := by
+  decide
+
+end SourceTie
 
 end Uom.C04
